@@ -2,6 +2,7 @@ import Genshi.Wire
 import Genshi.WireCore
 import Genshi.Model.Path
 import Genshi.Model.PathParse
+import Genshi.Model.PathPrint
 import Genshi.Model.PathStrategy
 import Genshi.Model.PathRef
 /-
@@ -13,6 +14,9 @@ import Genshi.Model.PathRef
     C05 xp     <text> <nsmap> <vars> <events>  -> reference result ( ok <item>… ) | unmodelled
     C05 pred   <text> <nsmap> <vars> <event>   -> value of the first predicate of the first step on the event
     C05 num    <text>                          -> XPath number of a string, printed back
+    C05 print | printa  <text>                 -> ( noparse ) | ( unprintable ) |   (printa: abbreviated steps)
+                                                  ( ok <printed text> ( <token>… ) <parse of the printed text> <bool: same AST> )
+                                                  where the AST printed is the model's parse of <text>
 -/
 namespace Driver.C05
 open Genshi Genshi.Path Genshi.Sexp
@@ -190,6 +194,22 @@ def runXp (text : List Char) (ns : NsMap) (vs : Vars) (es : List Event) : Sexp :
         else .atom "reference-formulations-differ"
     | _ => .atom "unmodelled"
 
+/-- model parse of `text`, print the AST (`abbr`: `Print.printPathsA`, else `Print.printPaths`), parse again -/
+def runPrint (abbr : Bool) (text : List Char) : Sexp :=
+  if !textCovered text then .atom "unmodelled" else
+  match parse text with
+  | .error _ => .list [.atom "noparse"]
+  | .ok ps =>
+    if !Print.pathsOk ps then .list [.atom "unprintable"] else
+    let t := if abbr then Print.printPathsA ps else Print.printPaths ps
+    let toks := if abbr then Print.pathsToksA ps else Print.pathsToks ps
+    let back := parse t
+    let backS := match back with
+      | .ok qs => Sexp.list (.atom "ok" :: qs.map pathSexp)
+      | .error k => .list [.atom "err", errAtom k]
+    .list [.atom "ok", .str t, .list (toks.map .str), backS,
+      ofBool (decide (back = .ok ps) && decide (tokenize t = toks))]
+
 def handle : List Sexp → Option Sexp
   | [.atom "parse", .str text] =>
       if !textCovered text then some (.atom "unmodelled") else
@@ -197,6 +217,8 @@ def handle : List Sexp → Option Sexp
       | .error .fuel | .error .unmodelled => some (.atom "unmodelled")
       | .error k => some (.list [.atom "err", errAtom k])
       | .ok ps => some (.list (.atom "ok" :: ps.map pathSexp))
+  | [.atom "print", .str text] => some (runPrint false text)
+  | [.atom "printa", .str text] => some (runPrint true text)
   | [.atom "tokens", .str text] => some (.list ((tokenize text).map .str))
   | [.atom "run", .str text, ns, vs, es] => do
       let ns ← nsOfSexp? ns; let vs ← varsOfSexp? vs; let es ← streamOfSexp? es
